@@ -43,11 +43,8 @@ namespace c14
         auto shape = in.vec();
         auto data = in.dvec();
         A a{};
-        size_t k = 0;
-        for (vh::Odo o(shape); !o.end; o.next()) {
-            if (k < data.size()) nm::apply_at(a, o.idx) = (T)data[k];
-            k++;
-        }
+        auto n = (size_t)nm::size(a);
+        for (size_t k = 0; k < n && k < data.size(); k++) a.data()[k] = (T)data[k];
         return a;
     }
 
@@ -119,7 +116,20 @@ namespace c14
     void emit_result(vh::Out& out, const ref_t&, const res_t& res, const Leaves& lv)
     {
         using U = meta::remove_cvref_t<res_t>;
-        if constexpr (meta::is_tuple_v<U>) {
+        if constexpr (meta::is_either_v<U>) {
+            // run-time keepdims: either<view, view>
+            using lhs_t = meta::get_either_left_t<U>;
+            using rhs_t = meta::get_either_right_t<U>;
+            if (auto l = nm::get_if<lhs_t>(&res)) {
+                out.tok("R1 2");
+                vh::emit_array(out, *l);
+            } else if (auto r = nm::get_if<rhs_t>(&res)) {
+                out.tok("R1 2");
+                vh::emit_array(out, *r);
+            } else {
+                out.tok("R1 2 N");
+            }
+        } else if constexpr (meta::is_tuple_v<U>) {
             out.tok("RP");
             emit_pack(out, res, lv);
         } else {
@@ -208,25 +218,31 @@ namespace c14
         });
     }
 
-    // extraction, part 1: extracted operands and compute graph of one view
+    // extraction, part 1a: extracted operands of one view
+    template <typename V>
+    void emit_operands_of(vh::Out& out, const V& v, const Leaves& lv)
+    {
+        if constexpr (meta::is_maybe_v<V>) {
+            if (!nm::has_value(v)) { out.tok("OPS NOVALUE"); return; }
+            emit_operands_of(out, nm::unwrap(v), lv);
+        } else {
+            out.tok("OPS");
+            auto ops = fn::get_function_operands(v);
+            emit_pack(out, ops, lv);
+        }
+    }
+
+    // extraction, part 1b: compute graph of one view
     template <typename V>
     void emit_graph_of(vh::Out& out, const V& v, const Leaves& lv)
     {
         if constexpr (meta::is_maybe_v<V>) {
-            if (!nm::has_value(v)) { out.tok("X NOVALUE"); return; }
+            if (!nm::has_value(v)) { out.tok("GRAPH NOVALUE"); return; }
             emit_graph_of(out, nm::unwrap(v), lv);
         } else {
-            out.tok("X");
-            out.tok("OPS");
-            {
-                auto ops = fn::get_function_operands(v);
-                emit_pack(out, ops, lv);
-            }
             out.tok("GRAPH");
-            {
-                auto g = fn::get_compute_graph(v);
-                emit_graph(out, nm::unwrap(g), lv);
-            }
+            auto g = fn::get_compute_graph(v);
+            emit_graph(out, nm::unwrap(g), lv);
         }
     }
 
